@@ -2133,12 +2133,39 @@ func (c *Ctx) checkNoRefusalAfterSave() {
 		c.lost("saveAndBroadcastMessage / negative reply constructors")
 		return
 	}
+	// publishers: saveAndBroadcastMessage and the helpers that wrap it (and return its error)
+	pub := map[*ssa.Function]bool{}
+	if f := c.P.SSAFunc(save); f != nil {
+		pub[f] = true
+	}
+	for i := 0; i < 2; i++ {
+		for _, g := range c.P.ModFuncs {
+			if !core.InPkg(g, "server") || pub[g] || g.Signature.Results().Len() == 0 || errIndex(g.Signature) < 0 {
+				continue
+			}
+			core.AllInstrs(g, func(in ssa.Instruction) {
+				if ci, ok := in.(ssa.CallInstruction); ok {
+					if cal := ci.Common().StaticCallee(); cal != nil && pub[cal] {
+						pub[g] = true
+					}
+				}
+			})
+		}
+	}
 	n := 0
 	for _, fn := range c.P.ModFuncs {
 		if !core.InPkg(fn, "server") {
 			continue
 		}
-		for _, site := range core.CallsTo(fn, save) {
+		var sites []ssa.CallInstruction
+		core.AllInstrs(fn, func(in ssa.Instruction) {
+			if ci, ok := in.(*ssa.Call); ok {
+				if cal := ci.Call.StaticCallee(); cal != nil && pub[cal] {
+					sites = append(sites, ci)
+				}
+			}
+		})
+		for _, site := range sites {
 			n++
 			r.Func(fk(fn))
 			pe, cnt := core.PassEdges(fn, successGuard(site))
@@ -2165,7 +2192,7 @@ func (c *Ctx) checkNoRefusalAfterSave() {
 				"after the message was saved and broadcast the request can still be refused"+posOf(c, w)+": the refused request has left a stored, numbered and delivered message behind (for a call: a second invitation answered busy and published all the same)")
 		}
 	}
-	r.Check(n >= 3, rule, "calls of saveAndBroadcastMessage examined", "-", fmt.Sprintf("%d", n), "fewer than three: anchor lost")
+	r.Check(n >= 2, rule, "calls of saveAndBroadcastMessage examined", "-", fmt.Sprintf("%d", n), "fewer than two: anchor lost")
 }
 
 // checkAvatarLinkedAfterWrite (C16): the avatar of a topic or account is re-linked (which unlinks
@@ -2414,4 +2441,191 @@ func (c *Ctx) checkNoticeOldSideIsSnapshot(rule string) {
 	if n == 0 {
 		r.Info(rule, "'before' arguments of notifySubChange read from local records", "-", "none on this tree")
 	}
+}
+
+// checkTokenMacCoversFields (C12): every field of the token layout that the authenticator copies
+// into the returned record (uid, level, features, ...) or tests (serial, expiry) is covered by the
+// MAC: the data handed to encoding/binary.Write on the way to the hash is the whole layout, or,
+// field by field, includes each such field. A field read but not signed can be rewritten by the
+// holder of any genuine token.
+func (c *Ctx) checkTokenMacCoversFields() {
+	r := c.R
+	const rule = "C12.1g-mac-covers-every-field-used"
+	auth := c.ssaMethod("server/auth/token", "authenticator", "Authenticate")
+	lay := c.P.NamedType("server/auth/token", "tokenLayout")
+	if auth == nil || lay == nil {
+		return
+	}
+	st, _ := lay.Underlying().(*types.Struct)
+	r.Func(fk(auth))
+	// fields of the layout read in Authenticate (outside calls that take the whole layout)
+	used := map[string]bool{}
+	core.AllInstrs(auth, func(in ssa.Instruction) {
+		if f, base := core.LoadedField(valueOf(in)); f != nil && base != nil {
+			for i := 0; st != nil && i < st.NumFields(); i++ {
+				if st.Field(i) == f {
+					used[f.Name()] = true
+				}
+			}
+		}
+	})
+	// what is written with binary.Write in Authenticate and the helpers it hands the layout to
+	whole := false
+	signed := map[string]bool{}
+	seen := map[*ssa.Function]bool{}
+	var scan func(fn *ssa.Function, d int)
+	scan = func(fn *ssa.Function, d int) {
+		if fn == nil || seen[fn] || d > 2 || len(fn.Blocks) == 0 {
+			return
+		}
+		seen[fn] = true
+		core.AllInstrs(fn, func(in ssa.Instruction) {
+			call, ok := in.(*ssa.Call)
+			if !ok {
+				return
+			}
+			if f := core.CalleeOf(&call.Call); f != nil && f.Name() == "Write" && f.Pkg() != nil && f.Pkg().Path() == "encoding/binary" && len(call.Call.Args) == 3 {
+				data := call.Call.Args[2]
+				if mi, isMI := data.(*ssa.MakeInterface); isMI {
+					data = mi.X
+				}
+				t := data.Type()
+				if p, isP := t.(*types.Pointer); isP {
+					t = p.Elem()
+				}
+				if types.Identical(t, lay) {
+					whole = true
+					return
+				}
+				if f2, _ := core.LoadedField(core.Strip(data)); f2 != nil {
+					signed[f2.Name()] = true
+				}
+				return
+			}
+			if g := call.Call.StaticCallee(); g != nil && core.InModule(g) {
+				for _, a := range call.Call.Args {
+					t := a.Type()
+					if p, isP := t.(*types.Pointer); isP {
+						t = p.Elem()
+					}
+					if types.Identical(t, lay) {
+						scan(g, d+1)
+					}
+				}
+			}
+		})
+	}
+	scan(auth, 0)
+	var missing []string
+	if !whole {
+		for f := range used {
+			if !signed[f] {
+				missing = append(missing, f)
+			}
+		}
+	}
+	sortStrings(missing)
+	r.Check(len(used) >= 3, rule, "fields of the token layout read by Authenticate", "-", fmt.Sprintf("%d", len(used)), "fewer than three: anchor lost")
+	r.Check(whole || (len(signed) > 0 && len(missing) == 0), rule, fk(auth)+": the MAC is computed over every field that is used", c.P.Pos(auth.Pos()), "",
+		fmt.Sprintf("the fields %v of a token are read but not part of the data the MAC is computed over: they can be altered on a genuine token without invalidating it", missing))
+}
+
+func valueOf(in ssa.Instruction) ssa.Value {
+	if v, ok := in.(ssa.Value); ok {
+		return v
+	}
+	return nil
+}
+
+// checkChannelNameNormalised (C02): in a channel-enabled group every recipient is shown the topic
+// under the name by which *it* addresses it (grpXXX for subscribers, chnXXX for channel readers),
+// whatever name the publisher used. In the function that fixes a broadcast copy up for a recipient:
+// with Topic.isChan true, the category "group" and a {data} payload present, no path from the entry
+// reaches a return without assigning Data.Topic.
+func (c *Ctx) checkChannelNameNormalised() {
+	r := c.R
+	const rule = "C02.3b-channel-name-normalised-for-every-recipient"
+	fn := c.ssaMethod("server", "Topic", "prepareBroadcastableMessage")
+	dataTopic := c.field("server", "MsgServerData", "Topic")
+	dataF := c.field("server", "ServerComMessage", "Data")
+	isChanF := c.E().topicField("isChan")
+	catF := c.E().topicField("cat")
+	grp := c.konst("server/store/types", "TopicCatGrp")
+	p2p := c.konst("server/store/types", "TopicCatP2P")
+	if fn == nil || dataTopic == nil || dataF == nil || isChanF == nil || catF == nil {
+		return
+	}
+	r.Func(fk(fn))
+	cut, _ := core.PassEdges(fn,
+		core.BoolGuard("!t.isChan", core.IsFieldLoad(isChanF), false),
+		core.NilGuard("msg.Data==nil", core.IsFieldLoad(dataF), true),
+		core.EqGuard("t.cat!=Grp", core.IsFieldLoad(catF), core.IsConstOf(grp), false),
+		core.EqGuard("t.cat==P2P", core.IsFieldLoad(catF), core.IsConstOf(p2p), true))
+	stores := core.StoresToField(fn, dataTopic)
+	isStore := func(in ssa.Instruction) bool {
+		for _, s := range stores {
+			if ssa.Instruction(s) == in {
+				return true
+			}
+		}
+		// a helper that does the renaming
+		if call, ok := in.(*ssa.Call); ok {
+			if g := call.Call.StaticCallee(); g != nil && core.InModule(g) && len(core.StoresToField(g, dataTopic)) > 0 {
+				return true
+			}
+		}
+		return false
+	}
+	found, w := core.PathAvoiding(fn, nil, core.IsReturn, isStore, cut)
+	r.Check(!found && len(stores) > 0 || (!found && len(stores) == 0 && hasCallStoring(fn, dataTopic)), rule, fk(fn)+": Data.Topic assigned for every recipient of a channel-enabled group", c.P.Pos(fn.Pos()), "",
+		"for a channel-enabled group a {data} copy can leave the function"+posOf(c, w)+" with the topic name the publisher used: a subscriber is shown chnXXX (or a reader grpXXX) instead of the name it addresses the topic by")
+}
+
+func hasCallStoring(fn *ssa.Function, f *types.Var) bool {
+	found := false
+	core.AllInstrs(fn, func(in ssa.Instruction) {
+		if call, ok := in.(*ssa.Call); ok {
+			if g := call.Call.StaticCallee(); g != nil && core.InModule(g) && len(core.StoresToField(g, f)) > 0 {
+				found = true
+			}
+		}
+	})
+	return found
+}
+
+// checkStoredMarksReportedClamped (C09): the store can hold a received mark below the read mark (a
+// {note read} moves the cached received mark along, but only ReadSeqId is written - the note
+// handler's tests pin that). Wherever a stored subscription's marks are reported to a client
+// (MsgTopicSub.RecvSeqId from Subscription.RecvSeqId) the received mark is therefore reported as
+// max(recv, read), as get.desc already does for the cached marks.
+func (c *Ctx) checkStoredMarksReportedClamped() {
+	r := c.R
+	const rule = "C09.5b-stored-marks-reported-clamped"
+	out := c.field("server", "MsgTopicSub", "RecvSeqId")
+	recvS := c.field("server/store/types", "Subscription", "RecvSeqId")
+	readS := c.field("server/store/types", "Subscription", "ReadSeqId")
+	if out == nil || recvS == nil || readS == nil {
+		return
+	}
+	n := 0
+	for _, fn := range c.P.ModFuncs {
+		if !core.InPkg(fn, "server") {
+			continue
+		}
+		for _, st := range core.StoresToField(fn, out) {
+			v := core.Strip(st.Val)
+			if !core.Derives(v, core.IsFieldLoad(recvS), false) && !isMaxOf(v, recvS, readS) {
+				continue // not a report of stored marks (a converter, a literal)
+			}
+			n++
+			r.Func(fk(fn))
+			construct := fk(fn) + ": reported RecvSeqId = max(stored recv, stored read)"
+			if k := countSame(r, rule, construct); k > 0 {
+				construct = fmt.Sprintf("%s #%d", construct, k+1)
+			}
+			r.Check(isMaxOf(v, recvS, readS), rule, construct, c.pos(st), "",
+				"the stored received mark is reported as it is: after a {note read} (which stores only the read mark) the client is told read > recv")
+		}
+	}
+	r.Check(n >= 2, rule, "reports of stored marks", "-", fmt.Sprintf("%d", n), "fewer than two: anchor lost")
 }
